@@ -51,11 +51,25 @@ mutual
     | ADD | SUB | MUL | NEG | ABS | ISNAT | INT | COMPARE | EQ | NEQ | LT | GT | LE | GE
     | NOT | AND | OR | XOR
     | CONCAT | SLICE
-    | AMOUNT | BALANCE | SENDER | SOURCE | NOW | LEVEL | CHAIN_ID | SELF_ADDRESS
+    | AMOUNT | BALANCE | SENDER | SOURCE | NOW | LEVEL | CHAIN_ID | SELF_ADDRESS | TOTAL_VOTING_POWER | MIN_BLOCK_TIME
+    | BLAKE2B | SHA256 | SHA512 | KECCAK | SHA3
+    | CAST (t : Ty) | RENAME
 end
 
 instance : Inhabited Val := ⟨.unit⟩
 instance : Inhabited Instr := ⟨.seq []⟩
+
+/-- the hash functions behind BLAKE2B / SHA256 / SHA512 / KECCAK / SHA3 (`blake2b_32`, `hashlib.sha256`, `hashlib.sha512`,
+pytezos' `Keccak256`, `hashlib.sha3_256`): *parameters* of the model — every theorem holds for every choice; the driver
+instantiates them with executable implementations that the correspondence run cross-checks against `hashlib` -/
+structure Hashes where
+  blake2b : List Nat → List Nat
+  sha256 : List Nat → List Nat
+  sha512 : List Nat → List Nat
+  keccak : List Nat → List Nat
+  sha3 : List Nat → List Nat
+
+instance : Inhabited Hashes := ⟨⟨fun _ => [], fun _ => [], fun _ => [], fun _ => [], fun _ => []⟩⟩
 
 /-- execution environment (`ExecutionContext` getters) -/
 structure Env where
@@ -67,7 +81,11 @@ structure Env where
   now : Int
   level : Int
   chainId : List Nat
-  deriving Repr, Inhabited
+  /-- `context.get_total_voting_power()` / `context.get_min_block_time()` -/
+  totalVotingPower : Int := 0
+  minBlockTime : Int := 1
+  hashes : Hashes := default
+  deriving Inhabited
 
 /-- outcome of running code: a result, a FAILWITH value, or any other runtime error / stuck state -/
 inductive Res (α : Type) where
